@@ -100,3 +100,23 @@ Proof.
     destruct (run pw t h w1) as [o2 w2] eqn:R2. pose proof (IHh _ _ _ R2) as H2.
     destruct o2; inversion R; subst; eapply acct_trans; eauto.
 Qed.
+
+(* every release event carries RUnit, RBad or RFault *)
+Definition rel_res_ok (e : ev) : Prop :=
+  match e with ERaw _ k _ r => is_rel_rop k = true -> r = RUnit \/ r = RBad \/ r = RFault | _ => True end.
+
+Lemma run_rel_res pw t p w out w' :
+  run pw t p w = (out, w') -> exists evs, w_trace w' = evs ++ w_trace w /\ Forall rel_res_ok evs.
+Proof.
+  intros R.
+  destruct (run_ops_inv pw t (fun _ => True) (fun _ => True) rel_res_ok) with (p := p) (w := w) (out := out) (w' := w') as [_ H]; auto.
+  - intros o w1 _ _. destruct o; simpl; try (split; [exact I|exists []; split; [reflexivity|constructor]]);
+      try (split; [exact I|eexists [_]; split; [reflexivity|repeat constructor]]).
+    destruct (faulty w1 k l); [split; [exact I|eexists [_]; split; [reflexivity|constructor; [|constructor]; simpl; intros Hk; auto]]|].
+    unfold raw_apply.
+    destruct k; simpl;
+      repeat match goal with |- context [if ?b then _ else _] => destruct b end;
+      (split; [exact I|eexists [_]; split; [reflexivity|constructor; [|constructor]; simpl; intros Hk; try discriminate Hk; auto]]).
+  - clear. induction p; constructor; auto.
+Qed.
+
